@@ -74,7 +74,7 @@ def step (line : String) : String :=
     | some jobs, some seed, some code, some ws =>
       let cfg : Config := ⟨jobs, ws⟩
       let s := simulate jobs ws.length 200000 (seed + 1) (init cfg)
-      let expStatus := if expectedResult cfg != 0 then code else 0
+      let expStatus := exitStatus code { init cfg with result := expectedResult cfg }
       s!"sim final={boolStr s.final} aborted={boolStr s.aborted} status={exitStatus code s} log={logStr s.log} | exp status={expStatus} log={logStr (expectedReports cfg).eraseDups} mid={boolStr (!noMidFrame cfg)}"
     | _, _, _, _ => "bad-op"
   | _ => "bad-op"
